@@ -84,6 +84,7 @@ type Stats struct {
 type Config struct {
 	LoopBound int
 	Lazy      bool
+	PoolReuse bool
 	StepBound int64
 	Preempt   int
 	MaxAlts   int
